@@ -72,6 +72,12 @@ def generate(rng, tier):
                 p["rpoints"] = 1
         cases.append({"kind": "attrs", "mode": 1, "present": p, "v": v,
                       "desc": {"kind": "attrs", "form": "flags", "n_present": sum(p.values()), "bad_fn": False, "bad_flag": False}})
+    for i in range(30 if tier == "quick" else 200):      # one -f flag: the order of the six values after the file name
+        vals = [round(rng.uniform(0.0, 1.0), 3), round(rng.uniform(5.0, 30.0), 3), round(rng.uniform(-0.5, 0.5), 3),
+                round(rng.uniform(0.5, 2.0), 3), round(rng.uniform(-0.2, 0.2), 3)]
+        kind = i % 5
+        cases.append({"kind": "fileflag", "mode": 1, "present": {k: 0 for k in KEYS}, "v": {"vals": vals, "kind": kind},
+                      "desc": {"kind": "fileflag", "function": (SL.KINDS + ["bogus(Q)"])[kind]}})
     n_cli = 14 if tier == "quick" else 60
     for i in range(n_cli):
         v = gen_values(rng)
@@ -103,7 +109,10 @@ def generate(rng, tier):
             d["Y"] = {"Offset": 0.0, "Scale": 1.0}
             d["X"] = {"Offset": 0.0}
             mat = {"rho": v["rho"], "bcoh": v["bcoh"] if p["bcoh"] else 1.0, "btot": v["btot"] if p["btot"] else 1.0}
-            files.append(SL.finish_dataset(d, mat))
+            d = SL.finish_dataset(d, mat)
+            if i % 3 != 0:   # per-file window / scale / offset values that are all different
+                d["flagvals"] = [0.2, 40.0, round(rng.uniform(0.05, 0.3), 2), round(rng.uniform(1.1, 1.9), 2), rng.choice([0.0, 0.1])]
+            files.append(d)
         cases.append({"kind": "cli", "mode": mode, "present": p, "v": v, "files": files,
                       "desc": {"kind": "cli", "form": "flags" if mode else "json", "n_files": nfiles, "fn": FN[v["fn"]],
                                "filter": bool(p["ff"] and v["ff"] == 3), "lorch": bool(p["lorch"] and v["lorch"] == 2)}})
@@ -180,7 +189,8 @@ def build_argv(case, filenames):
     if p["lowq"] and v["lowq"] == 2:
         argv += ["--low-q-correction"]
     for fn_, d in zip(filenames, case.get("files", [])):
-        argv += ["-f", fn_, "0.0", "50.0", "0.0", "1.0", "0.0", SL.KINDS[d["kind"]]]
+        ff = d.get("flagvals") or [0.0, 50.0, 0.0, 1.0, 0.0]
+        argv += ["-f", fn_] + [repr(t) for t in ff] + [SL.KINDS[d["kind"]]]
     return argv
 
 
@@ -213,8 +223,12 @@ def write_inputs(case, d):
 
 
 def file_infos(case, names):
-    return [{"Filename": n, "ReciprocalFunction": SL.KINDS[d["kind"]], "Qmin": 0.0, "Qmax": 50.0,
-             "Y": {"Offset": 0.0, "Scale": 1.0}, "X": {"Offset": 0.0}} for n, d in zip(names, case["files"])]
+    out = []
+    for n, d in zip(names, case["files"]):
+        ff = d.get("flagvals") or [0.0, 50.0, 0.0, 1.0, 0.0]
+        out.append({"Filename": n, "ReciprocalFunction": SL.KINDS[d["kind"]], "Qmin": ff[0], "Qmax": ff[1],
+                    "Y": {"Offset": ff[2], "Scale": ff[3]}, "X": {"Offset": ff[4]}})
+    return out
 
 
 def listing(d):
@@ -255,6 +269,20 @@ def run_impl(pystog, case):
     import pystog.cli as cli
     import pystog.io as pio
 
+    if case["kind"] == "fileflag":
+        vals, kind = case["v"]["vals"], case["v"]["kind"]
+        name = (SL.KINDS + ["bogus(Q)"])[kind]
+        args = pio.get_cli_parser().parse_args(["--density", "1.0", "-f", "x.dat"] + [repr(t) for t in vals] + [name])
+        info = pio.parse_cli_args(args)["Files"][0]
+        got = [info["Qmin"], info["Qmax"], info["Y"]["Offset"], info["Y"]["Scale"], info["X"]["Offset"]]
+        st = pystog.StoG()
+        probe = dict(info)
+        probe["data"] = np.array([[1.0, 2.0, 3.0], [1.0, 1.1, 0.9]])
+        try:
+            st.add_dataset(probe)
+            return {"fileflag": got + [float(SL.KINDS.index(info["ReciprocalFunction"]))]}
+        except ValueError as e:
+            return {"fileflag": [1.0], "rejected": str(e)[:120]}
     if case["kind"] == "attrs":
         if case["mode"] == 1:
             kw = pio.parse_cli_args(pio.get_cli_parser().parse_args(build_argv(case, [])))
@@ -333,10 +361,24 @@ def run_impl(pystog, case):
     res["plan"] = [float(CALLS[n] + (s if (n == "read_all_data" and s is not None) else (2 if n == "read_all_data" else 0))) for n, s in calls]
     res["cli_files"] = listing(da)
     if "status" not in res:
+        intended = kwargs
+        if case["mode"] == 1:   # the same settings written down independently of parse_cli_args
+            p_, v_ = case["present"], case["v"]
+            intended = {"Files": file_infos(case, rel), "NumberDensity": v_["rho"], "Outputs": {"StemName": "cli"},
+                        "RealSpaceFunction": FN[v_["fn"]] if p_["fn"] else "g(r)", "Rmax": v_["rmax"] if p_["rmax"] else 50.0,
+                        "LorchFlag": bool(p_["lorch"] and v_["lorch"] == 2), "OmittedXrangeCorrection": bool(p_["lowq"] and v_["lowq"] == 2),
+                        "<b_coh>^2": v_["bcoh"] if p_["bcoh"] else 1.0, "<b_tot^2>": v_["btot"] if p_["btot"] else 1.0,
+                        "Merging": {"Y": {"Offset": v_["Y"]["Offset"] if p_["merge"] else 0.0, "Scale": v_["Y"]["Scale"] if p_["merge"] else 1.0}}}
+            if p_["rdelta"]:
+                intended["Rdelta"] = v_["rdelta"]
+            else:
+                intended["Rpoints"] = int(v_["rpoints"]) if p_["rpoints"] else 5000
+            if p_["ff"] and v_["ff"] == 3:
+                intended["FourierFilter"] = {"Cutoff": v_["cutoff"]}
         try:
             with contextlib.redirect_stdout(io.StringIO()):
-                res["lib_files"] = library_run(pystog, kwargs, db)
-                res["lib3_files"] = library_run(pystog, kwargs, dc, skiprows=3)
+                res["lib_files"] = library_run(pystog, intended, db)
+                res["lib3_files"] = library_run(pystog, intended, dc, skiprows=3)
         except Exception as e:
             res["lib_error"] = "%s: %s" % (type(e).__name__, str(e)[:200])
     shutil.rmtree(base, ignore_errors=True)
@@ -346,6 +388,8 @@ def run_impl(pystog, case):
 def to_coq(case, res):
     if "exception" in res:
         return None
+    if case["kind"] == "fileflag":
+        return [("chk_fileflag", ([], case["v"]["vals"], [case["v"]["kind"]], [res["fileflag"]]))]
     p, v = case["present"], case["v"]
     Y, F = v["Y"], v["F"]
     FY = None if not F else F.get("Y")
@@ -383,6 +427,15 @@ def oracle(pystog, case, res):
     the CLI produces exactly the files (names and bytes) of the library driven with the same settings"""
     if "exception" in res:
         return "harness could not run the case: %s %s" % (res["exception"], res["message"])
+    if case["kind"] == "fileflag":
+        vals, kind = case["v"]["vals"], case["v"]["kind"]
+        if kind == 4:
+            return None if "rejected" in res else "an unknown ReciprocalFunction name given with -f was accepted"
+        if "rejected" in res:
+            return "a valid -f flag was rejected: %s" % res["rejected"]
+        if res["fileflag"] != vals + [float(kind)]:
+            return "-f NAME QMIN QMAX YOFFSET YSCALE QOFFSET TYPE: parsed as (Qmin, Qmax, Y.Offset, Y.Scale, X.Offset, type) = %r, typed %r" % (res["fileflag"], vals + [float(kind)])
+        return None
     p, v = case["present"], case["v"]
     bad_fn = bool(p["fn"] and v["fn"] == 3)
     bad_flag = bool((p["lowq"] and v["lowq"] == 3) or (p["lorch"] and v["lorch"] == 3))
